@@ -12,6 +12,23 @@ func checkC16(c *Ctx) {
 	c.Rule("C16.bounds", "BOUNDS (L12): every proofSet[height] / levels index on caller-supplied slices is dominated by a comparison with the slice length (a shortened proof is rejected, never a panic)", 2)
 	c.Rule("C16.order", "ORDER: in Tree.Push and Tree.PushSubTree the join of equal-height subtrees (which reads currentIndex to decide which sibling enters the proof set) happens before currentIndex is advanced, in both insertion routines alike; the tracked leaf is recorded before the join", 2)
 	c.Rule("C16.par", "PARTITION (L8): the parallel level build of BuildMerkleTree writes levels[i][k] only for k in its [start,end) range", 1)
+	c.Rule("C16.alias", "ALIAS (L10): Tree.Prove returns a proof set that does not share its backing array with the tree (later pushes cannot overwrite a proof already handed out); Push and PushSubTree keep no reference to the caller's slice (a reused input buffer cannot change the proof set or the root)", 3)
+	for _, name := range []string{"Prove"} {
+		if fn := p.Func("accumulator/merkletree", "Tree", name); fn != nil {
+			c.Instance("C16.alias", 1)
+			checkReturnedSlicesFresh(c, p, "C16.alias", fn)
+		} else {
+			c.Undecided("anchor merkletree.Tree.%s not found", name)
+		}
+	}
+	for _, name := range []string{"Push", "PushSubTree"} {
+		if fn := p.Func("accumulator/merkletree", "Tree", name); fn != nil {
+			c.Instance("C16.alias", 1)
+			checkNoRetainedParamSlices(c, p, "C16.alias", fn)
+		} else {
+			c.Undecided("anchor merkletree.Tree.%s not found", name)
+		}
+	}
 
 	vp := p.Func("accumulator/merkletree", "", "VerifyProof")
 	if vp == nil {
